@@ -11,6 +11,10 @@ const cmpPrepRaw = `var safe, same bool
 	if !safe {
 		same = true
 	}
+	if reuse != nil && !same && reuse.Dtype() != Bool {
+		// without AsSameType the result is a tensor of bools: it cannot be written into storage of another element type
+		return nil, errors.Errorf(typeMismatch, Bool, reuse.Dtype())
+	}
 `
 
 const arithPrepRaw = `var safe, toReuse, incr bool
